@@ -435,7 +435,9 @@ def reach_disc(body, starts, avoid=(), avoid_edges=(), prog=None, cap=48, init=N
         sd = switch_discr_place(body, b)
         t = body.term(b)
         if sd is not None and sd[0][0] not in _stmt_kills_after_discr(body, b, sd[0]):
+            from . import discharge as _D
             place, ty = sd
+            place = _D._norm(body, place)
             n = _variant_count(prog, ty)
             listed = [v for v, _ in t["vals"]]
             for v, tgt in t["vals"] + [[None, t["otherwise"]]]:
@@ -621,7 +623,7 @@ def origin_local(body, op_or_place, depth=16):
         if d is None or d[1] == TERM:
             if d and "fn" in d[2]:
                 c = Callee(d[2]["fn"])
-                if c.path.split("::")[-1] in ("deref", "deref_mut", "as_ref", "as_mut", "borrow", "borrow_mut") and d[2]["args"]:
+                if c.path.split("::")[-1] in ("deref", "deref_mut", "as_ref", "as_mut", "borrow", "borrow_mut", "as_slice", "as_mut_slice", "as_str") and d[2]["args"]:
                     pl = op_place(d[2]["args"][0])
                     continue
             return None
@@ -642,7 +644,11 @@ def call_origin_path(body, op):
     return None, o
 
 
-def control_dependent_only_via(body, target_bb, edge):
-    """True iff every path from entry to target_bb takes `edge` (a, b)."""
-    r = body.reach([0], avoid_edges=[edge])
+def control_dependent_only_via(body, target_bb, edge, prog=None, path_sensitive=False):
+    """True iff every (discriminant-consistent, when path_sensitive) path from entry to target_bb
+    takes `edge` (a, b)."""
+    if path_sensitive:
+        r = reach_disc(body, [0], avoid_edges=[edge], prog=prog)
+    else:
+        r = body.reach([0], avoid_edges=[edge])
     return target_bb not in r
